@@ -46,6 +46,11 @@ PROVS = [PROV_INIT, PROV_GET_ABS, PROV_GET_REL, PROV_CTOR_REL, PROV_CTOR_REL, PR
 # against any of the other cwds (by a tree under test that does not absolutise it) it still lands inside the case
 # directory — a check must not be able to write outside its scratch tree even against a broken tree.
 NCWD = 5
+# how a Job object is obtained from its Project object: 0 open_job(statepoint), 1 iteration over the project,
+# 2 open_job(id=<full id>), 3 signac.get_job(<job directory>), 4 signac.get_job(<relative path of the job directory>).
+# 1-4 need the job directory (the harness falls back to 0 when it does not exist); 3/4 come with a Project object of
+# their own.  For a project document 3/4 mean `signac.get_job(<some job directory>).project`.
+HOW_SP, HOW_ITER, HOW_ID, HOW_GETJOB, HOW_GETJOB_REL = range(5)
 
 DEFAULT_CAP = 32 * 2 ** 20
 NFILES = 4   # file 0 = project document, files 1..3 = jobs with state point {"a": f}
@@ -177,26 +182,68 @@ class Gen:
         self.pobj = {}      # object -> id of the Project object behind it
         self.created = {}   # Project object -> files (ids) whose job directory was created through it: these ids
                             # are in that object's state point cache, also after the job was removed / re-keyed
+        self.prov = {}
+        self.group = {}     # object -> group of shallow copies (copy.copy): they share the state point, so a state
+                            # point change through one of them re-keys all of them
+        self.hasdoc = set()  # objects whose `_document` exists (a shallow copy would share it)
         files = [0] + rng.sample([1, 2, 3], nfiles - 1) if nfiles > 1 else [rng.choice([0, 1])]
         for f in files:
             for _ in range(rng.randint(1, nhandles)):
-                self.open(f)
+                j = self.open(f)
+                if lifecycle and f and rng.random() < 0.3:
+                    self.copy(j)
         self.lifecycle = lifecycle
 
     def open(self, f):
         j = self.nj
         self.nj += 1
-        self.prov = getattr(self, "prov", {})
-        self.prov[j] = self.rng.choice(PROVS)
-        self.items.append(["open", j, f, self.prov[j]])
+        rng = self.rng
+        same = [x for x in self.live if self.fid[x] // 10 == f // 10]
+        # often the way an earlier handle of the same project was obtained (e.g. two objects through the symlink)
+        self.prov[j] = self.prov[rng.choice(same)] if same and rng.random() < 0.4 else rng.choice(PROVS)
+        how = HOW_SP
+        if (f in self.dirs or (f % 10 == 0 and any(g // 10 == f // 10 for g in self.dirs))) and rng.random() < 0.6:
+            how = rng.choice([HOW_ITER, HOW_ID, HOW_GETJOB, HOW_GETJOB, HOW_GETJOB_REL]) if f % 10 else HOW_GETJOB
+        self.items.append(["open", j, f, self.prov[j], how])
         self.fid[j] = f
         self.pobj[j] = j
+        self.group[j] = j
         self.live.append(j)
         return j
 
-    def touch(self, j):
+    def copy(self, j0):
+        """jn = copy.copy(j0) of a Job object whose document was not accessed yet (each gets its own document
+        handle): another object for the same job that follows state point changes made through j0 - and leads them"""
+        if self.fid[j0] % 10 == 0 or j0 in self.hasdoc or j0 not in self.live:
+            return None
+        jn = self.nj
+        self.nj += 1
+        self.items.append(["copy", jn, j0, self.fid[j0], self.prov[j0]])
+        self.fid[jn] = self.fid[j0]
+        self.pobj[jn] = self.pobj[j0]
+        self.prov[jn] = self.prov[j0]
+        self.group[jn] = self.group[j0]
+        self.live.append(jn)
+        return jn
+
+    def follow(self, j, f2):
+        """after a state point change through j: its shallow copies are objects for the re-keyed job now (their lazily
+        created document handles were dropped); every other object for the old id is not used again"""
+        for x in list(self.live):
+            if x == j or self.fid[x] != self.fid[j]:
+                continue
+            if self.group[x] == self.group[j]:
+                self.items.append(["follow", x, f2, self.prov[x]])
+                self.fid[x] = f2
+                self.hasdoc.discard(x)
+            else:
+                self.live.remove(x)
+
+    def touch(self, j, doc=True):
         """a document operation / init through j: creates the job directory if it does not exist"""
         f = self.fid[j]
+        if doc:
+            self.hasdoc.add(j)
         if f % 10 and f not in self.dirs:
             self.created.setdefault(self.pobj[j], set()).add(f)
         self.dirs.add(f)
@@ -212,13 +259,18 @@ class Gen:
         j = rng.choice(self.live)
         f = self.fid[j]
         if allow_life and self.lifecycle and f % 10 != 0 and rng.random() < 0.16:
-            kind = rng.choice(["remove", "rekey", "init", "open", "move", "openid", "openid"])
+            kind = rng.choice(["remove", "rekey", "rekey", "init", "open", "move", "openid", "openid", "copy", "copy"])
+            if kind == "copy":
+                cands = [x for x in self.live if self.fid[x] % 10 and x not in self.hasdoc]
+                if cands:
+                    self.copy(rng.choice(cands))
+                return True
             if kind == "open":
                 self.open(rng.choice([0, 1, 2, 3]))
                 return True
             if kind == "init":
                 self.items.append(["init", j])
-                self.touch(j)
+                self.touch(j, doc=False)
                 return True
             if kind == "openid":
                 # project.open_job(id=...) through the Project object of an existing handle, for an id that object has
@@ -233,6 +285,7 @@ class Gen:
                 self.fid[jn] = g
                 self.pobj[jn] = self.pobj[j0]
                 self.prov[jn] = self.prov[j0]
+                self.group[jn] = jn
                 self.live.append(jn)
                 return True
             others = [x for x in self.live if x != j and self.fid[x] == f]
@@ -252,6 +305,8 @@ class Gen:
                     else:
                         self.ref.pop(f + 10, None)
                     self.fid[j] = f + 10
+                    self.hasdoc.discard(j)
+                    self.group[j] = ("moved", j, len(self.items))  # detached from its shallow copies
                     self.pobj[j] = ("moved", j, len(self.items))   # the destination project's object
                     self.prov[j] = PROV_GET_ABS
                     self.created.setdefault(self.pobj[j], set()).add(f + 10)   # move registers the id there
@@ -263,17 +318,25 @@ class Gen:
                 if f in self.dirs:
                     self.dirs.discard(f)
                     self.ref.pop(f, None)
+                    self.hasdoc.discard(j)
                     for x in others:
                         self.live.remove(x)
                 return True
             f2 = rng.choice([x for x in (1, 2, 3) if x != f % 10]) + (f // 10) * 10
             self.items.append(["rekey", j, f2])
             if f not in self.dirs:
+                # not initialised: only the id changes (for every shallow copy as well); other objects stay on f
+                for x in [x for x in self.live if x != j and self.fid[x] == f and self.group[x] == self.group[j]]:
+                    self.items.append(["follow", x, f2, self.prov[x]])
+                    self.fid[x] = f2
+                    self.hasdoc.discard(x)
                 self.fid[j] = f2
+                self.hasdoc.discard(j)
             elif f2 in self.dirs:
                 # DestinationExistsError; the job object is left with the new state point in memory (C04's
                 # business: a later init() through it writes a state point that does not match its id) - not used again
-                self.live.remove(j)
+                for x in [x for x in self.live if self.group[x] == self.group[j]]:
+                    self.live.remove(x)
             else:
                 self.dirs.discard(f)
                 self.dirs.add(f2)
@@ -282,9 +345,9 @@ class Gen:
                     self.ref[f2] = self.ref.pop(f)
                 else:
                     self.ref.pop(f2, None)
+                self.follow(j, f2)
                 self.fid[j] = f2
-                for x in others:
-                    self.live.remove(x)
+                self.hasdoc.discard(j)
             return True
         doc = self.ref.setdefault(f, {})
         self.touch(j)
@@ -319,7 +382,11 @@ class Gen:
             ref_apply(doc, tpath, op)
             return True
         path, op = rand_op(rng, doc)
-        self.items.append(["op", j, path, op])
+        if op[0] == "clear" and not path and f % 10:
+            # for the document Job.clear() and Job.reset() ARE document.clear() (the job directory exists here)
+            self.items.append(["op", j, path, op, rng.choice(["doc", "jobclear", "jobreset", "jobreset"])])
+        else:
+            self.items.append(["op", j, path, op])
         try:
             ref_apply(doc, path, op)
         except (KeyError, IndexError):
@@ -363,7 +430,7 @@ def is_life(i):
 def strip_life(items):
     """The program without lifecycle items; open-by-id handles (legal only because of them) and their uses go too."""
     byid = {i[1] for i in items if i[0] == "openid"}
-    out = [i for i in items if not is_life(i) and i[0] != "openid" and not (i[0] in ("op", "opl") and i[1] in byid)
+    out = [i for i in items if not is_life(i) and i[0] not in ("openid", "follow") and not (i[0] in ("op", "opl") and i[1] in byid)
            and not (i[0] == "opl" and i[4] in byid)]
     # inside blocks the statement is written with the plain value (its extra loads of the viewed document would
     # matter for the buffer's flush timing)
@@ -403,6 +470,30 @@ def random_blocks(rng, items, live):
 
 
 GOLDEN = [
+    # Job.reset() / Job.clear() are document.clear() for the document (seeded C05-10): a second object that has read the
+    # document sees the reset; inside a block, with the document file existing before the block, nothing is lost
+    {"cap0": DEFAULT_CAP, "threads": True, "label": "golden-job-reset", "prog": [
+        ["open", 0, 1, PROV_GET_ABS], ["open", 1, 1, PROV_GET_REL], ["op", 0, [], ["set", "x", 0]], ["op", 0, [], ["set", "y", [1, {"z": 2}]]],
+        ["op", 1, [], ["get"]], ["op", 0, [], ["clear"], "jobreset"], ["op", 0, [], ["get"]], ["op", 1, [], ["get"]],
+        ["op", 0, [], ["set", "c", 3]], ["op", 1, [], ["get"]], ["op", 1, [], ["clear"], "jobclear"], ["op", 0, [], ["get"]],
+        ["op", 0, [], ["set", "d", 4]], ["enter", None], ["op", 0, [], ["set", "a", 1]], ["op", 0, [], ["clear"], "jobreset"],
+        ["op", 0, [], ["get"]], ["op", 0, [], ["set", "c", 4]], ["op", 0, [], ["get"]], ["exit"], ["op", 0, [], ["get"]], ["op", 1, [], ["get"]]]},
+    # shallow copies of a Job object (taken before its document was accessed) follow - and lead - state point changes
+    # (seeded C05-11): objects obtained by iteration and by state point
+    {"cap0": DEFAULT_CAP, "threads": True, "label": "golden-copy-follows-rekey", "prog": [
+        ["open", 0, 1, PROV_GET_ABS], ["init", 0], ["open", 1, 1, PROV_GET_ABS, HOW_ITER], ["copy", 2, 1, 1, PROV_GET_ABS],
+        ["op", 1, [], ["set", "x", 1]], ["op", 2, [], ["get"]], ["rekey", 1, 2], ["follow", 2, 2, PROV_GET_ABS], ["op", 2, [], ["get"]],
+        ["op", 2, [], ["set", "z", {"k": None}]], ["op", 1, [], ["del", "x"]], ["op", 1, [], ["get"]], ["op", 2, [], ["get"]],
+        ["open", 3, 2, PROV_GET_REL], ["op", 3, [], ["get"]],
+        ["open", 4, 3, PROV_CTOR_REL], ["copy", 5, 4, 3, PROV_CTOR_REL], ["op", 4, [], ["set", "q", 1]], ["rekey", 5, 1],
+        ["follow", 4, 1, PROV_CTOR_REL], ["op", 4, [], ["get"]], ["op", 5, [], ["get"]], ["op", 5, [], ["set", "r", 2]], ["op", 4, [], ["get"]]]},
+    # objects from signac.get_job(<job directory>) (and their .project) next to objects of the Project object the path
+    # was taken from, project reached through a symlinked prefix, both writing in one block (seeded C05-12)
+    {"cap0": DEFAULT_CAP, "threads": True, "label": "golden-getjob-symlink", "prog": [
+        ["open", 0, 1, PROV_CTOR_SYMLINK], ["init", 0], ["open", 1, 1, PROV_CTOR_SYMLINK, HOW_GETJOB], ["open", 2, 0, PROV_CTOR_SYMLINK],
+        ["open", 3, 0, PROV_CTOR_SYMLINK, HOW_GETJOB], ["op", 0, [], ["set", "a", 1]], ["op", 1, [], ["get"]],
+        ["enter", None], ["op", 0, [], ["set", "b", [2]]], ["op", 1, [], ["set", "c", {"d": None}]], ["op", 2, [], ["set", "p", 1]],
+        ["op", 3, [], ["set", "q", [True]]], ["exit"], ["op", 0, [], ["get"]], ["op", 1, [], ["get"]], ["op", 2, [], ["get"]], ["op", 3, [], ["get"]]]},
     # statements whose value is a live view of the same document (seeded C05-7: `job.doc = job.doc` must not empty it)
     {"cap0": DEFAULT_CAP, "threads": True, "label": "golden-live-view", "prog": [
         ["open", 0, 1, PROV_GET_ABS], ["open", 1, 1, PROV_GET_REL], ["op", 0, [], ["reset", {"a": {"k": 1}, "b": [1, 2]}]],
@@ -537,7 +628,7 @@ def gen_inputs(tier, rng):
         add(items, "unbuffered", thr)
         # without the lifecycle items every object stays in use
         nolife = strip_life(items)
-        everyone = sorted({i[1] for i in nolife if i[0] == "open"})
+        everyone = sorted({i[1] for i in nolife if i[0] in ("open", "copy")})
         add(wrap_all(nolife, rng.choice([None, None, 0, 1, 40, 200]), everyone), "buffered", thr)
         add(random_blocks(rng, items, live), "sub-blocks", thr, cap0=rng.choice([DEFAULT_CAP, DEFAULT_CAP, 0, 50, 300]))
         if multi:
@@ -566,7 +657,7 @@ def _typed_prog(prog):
 
 def typed_item(it):
     if it[0] == "op":
-        return ["op", it[1], it[2], [it[3][0]] + [typed(x) for x in it[3][1:]]]
+        return ["op", it[1], it[2], [it[3][0]] + [typed(x) for x in it[3][1:]]] + list(it[4:])
     if it[0] == "opl":
         return ["opl", it[1], it[2], [it[3][0]] + [typed(x) for x in it[3][1:]]] + list(it[4:])
     return it
@@ -576,7 +667,7 @@ def untyped_item(it):
     if it[0] == "opl":
         return ["opl", it[1], it[2], [it[3][0]] + [_untyped_arg(it[3][0], n, x) for n, x in enumerate(it[3][1:])]] + list(it[4:])
     if it[0] == "op":
-        return ["op", it[1], it[2], [it[3][0]] + [_untyped_arg(it[3][0], n, x) for n, x in enumerate(it[3][1:])]]
+        return ["op", it[1], it[2], [it[3][0]] + [_untyped_arg(it[3][0], n, x) for n, x in enumerate(it[3][1:])]] + list(it[4:])
     return it
 
 
@@ -640,6 +731,14 @@ def coq_item(it):
     if k == "openid":
         # a new Job object for job it[3] through the Project object of handle it[2]; it[4] = that object's provenance
         return "(JOpen %s %s %s)" % (coq_N(it[1]), coq_N(it[3]), coq_N(it[4]))
+    if k == "copy":
+        # copy.copy of a Job object whose document was not accessed yet: a new object for the same job (it[3]), obtained
+        # like the original (it[4]), with a document handle of its own
+        return "(JOpen %s %s %s)" % (coq_N(it[1]), coq_N(it[3]), coq_N(it[4]))
+    if k == "follow":
+        # no action: after a state point change through one of its shallow copies, object it[1] is an object for the
+        # re-keyed job it[2] (the reference and the model take it as a fresh object for that job)
+        return "(JOpen %s %s %s)" % (coq_N(it[1]), coq_N(it[2]), coq_N(it[3]))
     if k == "move":
         return "(JMove %s)" % coq_N(it[1])
     if k in ("op", "opl"):
@@ -758,6 +857,29 @@ def project_by_provenance(signac, project, root, prov):
     raise AssertionError(prov)
 
 
+def obtain(signac, pr, n, ids, how, may_rel):
+    """The object for job n (0: the project itself) of Project object `pr`, obtained in one of the ways users obtain
+    one; returns (object, its Project object)."""
+    if n == 0:
+        if how in (HOW_GETJOB, HOW_GETJOB_REL):
+            ws = pr.workspace
+            for name in sorted(os.listdir(ws)) if os.path.isdir(ws) else []:
+                if name in ids.values() and os.path.isdir(os.path.join(ws, name)):
+                    p2 = signac.get_job(os.path.join(ws, name)).project
+                    return p2, p2
+        return pr, pr
+    jid = ids[n]
+    jdir = os.path.join(pr.workspace, jid)
+    if how == HOW_SP or not os.path.isdir(jdir):
+        return pr.open_job(sp_of(n)), pr
+    if how == HOW_ITER:
+        return next(j for j in pr if j.id == jid), pr
+    if how == HOW_ID:
+        return pr.open_job(id=jid), pr
+    job = signac.get_job(os.path.relpath(jdir) if how == HOW_GETJOB_REL and may_rel else jdir)
+    return job, job.project
+
+
 def _misplaced(root):
     """Entries of the case directory that a correct tree never creates (a relative path resolved against the wrong
     working directory lands here — inside the scratch tree by construction of the layout)."""
@@ -871,10 +993,17 @@ def run_case(desc):
                     val = None
                     if k == "open":
                         r_ = root + "2" if it[2] >= 10 else root
-                        pr = project_by_provenance(signac, project, r_, it[3] if len(it) > 3 else PROV_GET_ABS)
-                        objs[it[1]] = pr if it[2] % 10 == 0 else pr.open_job(sp_of(it[2] % 10))
-                        proj_of[it[1]] = pr
+                        prov = it[3] if len(it) > 3 else PROV_GET_ABS
+                        pr = project_by_provenance(signac, project, r_, prov)
+                        objs[it[1]], proj_of[it[1]] = obtain(signac, pr, it[2] % 10, ids, it[4] if len(it) > 4 else HOW_SP,
+                                                             prov != PROV_CTOR_SYMLINK)
                         fid_of[it[1]] = it[2]
+                    elif k == "copy":
+                        objs[it[1]] = copy.copy(objs[it[2]])
+                        proj_of[it[1]] = proj_of[it[2]]
+                        fid_of[it[1]] = it[3]
+                    elif k == "follow":
+                        fid_of[it[1]] = it[2]              # nothing is done: the object followed its shallow copy
                     elif k == "openid":
                         # a new Job object by id through the Project object of handle it[2] (the id is in its cache)
                         pr = proj_of[it[2]]
@@ -892,11 +1021,14 @@ def run_case(desc):
                         run_live(objs, it)
                     elif k == "op":
                         o = objs[it[1]]
+                        spell = it[4] if len(it) > 4 else ("jobclear" if n % 2 == 1 else "doc")
+                        isjob = it[3][0] == "clear" and not it[2] and fid_of.get(it[1], 0) % 10 != 0
                         if it[3][0] == "reset" and not it[2] and n % 2 == 0:
                             o.document = it[3][1]          # the setter spelling of reset
-                        elif (it[3][0] == "clear" and not it[2] and fid_of.get(it[1], 0) % 10 != 0 and n % 2 == 1
-                              and os.path.isdir(o.path)):
+                        elif isjob and spell == "jobclear" and os.path.isdir(o.path):
                             o.clear()                      # Job.clear(): for the document this is document.clear()
+                        elif isjob and spell == "jobreset" and os.path.isdir(o.path):
+                            o.reset()                      # Job.reset() = clear() + init()
                         else:
                             val = do_op(o.document if n % 3 else o.doc, it[2], copy.deepcopy(it[3]), n % 2 == 1)
                     elif k == "rekey":
